@@ -2,11 +2,11 @@
 use crate::util::*;
 use lc3_ensemble::asm::SourceInfo;
 
-const SIGMA: [&str; 6] = ["a", " ", "\t", "\n", "\r", "é"];
+const SIGMA: [&str; 8] = ["a", " ", "\t", "\n", "\r", "é", "\u{b}", "\u{c}"];
 
 fn nth_string(mut i: u64, len: usize) -> String {
     let mut s = String::new();
-    for _ in 0..len { s.push_str(SIGMA[(i % 6) as usize]); i /= 6; }
+    for _ in 0..len { s.push_str(SIGMA[(i % 8) as usize]); i /= 8; }
     s
 }
 
@@ -60,10 +60,10 @@ pub fn check_info(si: &SourceInfo, src: &str) -> Result<(), (String, String)> {
 }
 
 pub fn run(ctx: &Ctx) -> Report {
-    let maxlen = ctx.pick(6usize, 9usize);
-    let mut rep = Report::new("all strings of length 0..=L over {a, space, TAB, LF, CR, e-acute}; for each: count_lines, every line's span/text, get_pos_pair at every index 0..=len+10, against a reference written from the doc comments; the same reference applied to the SourceInfo of linked object files (2-3 debug-symbol files whose texts carry every combination of 8 leading/trailing affixes: nothing, LF, CRLF, blanks, blank lines, comments) and of their binary/text round trips; non-trivial = string containing a newline and a non-newline character");
+    let maxlen = ctx.pick(5usize, 8usize);
+    let mut rep = Report::new("all strings of length 0..=L over {a, space, TAB, LF, CR, e-acute, VT, FF}; every string of <=4 symbols again at every offset 0..=8 inside a longer text (word-at-a-time scanners see it at every alignment); for each: count_lines, every line's span/text, get_pos_pair at every index 0..=len+10, against a reference written from the doc comments; the same reference applied to the SourceInfo of linked object files (2-3 debug-symbol files whose texts carry every combination of 8 leading/trailing affixes: nothing, LF, CRLF, blanks, blank lines, comments) and of their binary/text round trips; non-trivial = string containing a newline and a non-newline character");
     for len in 0..=maxlen {
-        let n = 6u64.pow(len as u32);
+        let n = 8u64.pow(len as u32);
         let r = sweep(ctx, n, 4096, |i, acc| {
             let s = nth_string(i, len);
             acc.evals += 1; acc.transitions += (s.len() + 11 + 2 * (s.matches('\n').count() + 3)) as u64;
@@ -74,6 +74,16 @@ pub fn run(ctx: &Ctx) -> Report {
         });
         rep.absorb(r);
     }
+    // every short string at every alignment inside a longer text
+    let npad = 8u64.pow(4) + 8u64.pow(3) + 64 + 8 + 1;
+    let r = sweep(ctx, npad * 9, 512, |i, acc| {
+        let (k, mut j) = (i % 9, i / 9);
+        let mut len = 0usize; while j >= 8u64.pow(len as u32) { j -= 8u64.pow(len as u32); len += 1; }
+        let s = format!("{}{}{}", "a".repeat(k as usize), nth_string(j, len), "aaaaaaaa\nb");
+        acc.evals += 1; acc.transitions += s.len() as u64; acc.count("aligned_texts", 1);
+        if let Some((sig, d)) = check(&s) { acc.violation(sig, hex(s.as_bytes()), d); }
+    });
+    rep.absorb(r);
     // scale: texts of 255 .. 70000 lines (line counts across 2^8, 2^9, 2^12, 2^16), three line shapes each, every index queried
     let shapes: [&[&str]; 3] = [&["a\n"], &["\n", "ab \n", "\t\r\n", "é\n"], &[" x;y\r\n", "\n"]];
     let counts = [255usize, 256, 257, 258, 511, 512, 513, 1000, 4095, 4096, 4097, 65535, 65536, 65537, 70000];
